@@ -305,6 +305,7 @@ type Layout struct {
 	EmptyPad   bool   // a blank inside empty brackets
 	Note       bool   // a note on every annotated node
 	ColonPad   bool   // blanks around ':' and before ','
+	NoteTab    bool   // a tab (not a blank) after the rule object of an annotation: before "- note", or before the end of the annotation
 }
 
 var houseLayout = Layout{NL: "\n", Indent: "  ", Ann: "inline"}
@@ -328,6 +329,7 @@ func layoutFromSpec(m map[string]string) Layout {
 	l.HashOwn, l.HashTrail, l.HashBlock = yes("hashOwn"), yes("hashTrail"), yes("hashBlock")
 	l.Quoted, l.TrailComma, l.Reversed = yes("quoted"), yes("trailComma"), yes("reversed")
 	l.EmptyPad, l.Note, l.ColonPad = yes("emptyPad"), yes("note"), yes("colonPad")
+	l.NoteTab = yes("noteTab")
 	return l
 }
 
@@ -407,7 +409,13 @@ func (r *renderer) annotation(n Node) string {
 	if len(n.Rules) > 0 {
 		body = r.rulesText(n.Rules)
 		if note != "" {
-			body += " - " + note
+			if r.l.NoteTab {
+				body += "\t- " + note
+			} else {
+				body += " - " + note
+			}
+		} else if r.l.NoteTab && !hasItemNotes(n.Rules) {
+			body += "\t"
 		}
 	} else if note != "" {
 		body = note
@@ -430,7 +438,7 @@ func (r *renderer) annotation(n Node) string {
 			s = " // " + body
 		}
 	}
-	if r.l.HashTrail && !(note != "" && r.l.Ann == "inline" && body != "") && !(r.l.Ann == "inline" && body != "" && len(n.Rules) == 0) {
+	if r.l.HashTrail { // also after the note of an inline annotation: the note ends at the comment
 		r.hashN++
 		if r.hashN%2 == 0 {
 			s += " #" // an empty comment
